@@ -352,7 +352,7 @@ def c15(ctx):
                    [], rule, "path equivalence", tags_of=ttl_tags)
 
 
-def det_run(ctx, pkg, test, tracefile, summary, module, cfg, env, design, rule, what, tags_of=None, timeout=1200, consts=None):
+def det_run(ctx, pkg, test, tracefile, summary, module, cfg, env, design, rule, what, tags_of=None, timeout=1200, consts=None, extra_cov=None):
     """Common shape of the checks whose trace is sequential and fully logged: design configs,
     driver, deterministic validation (every failing sequence is named by the trace spec)."""
     for m, c, kw in design:
@@ -366,7 +366,7 @@ def det_run(ctx, pkg, test, tracefile, summary, module, cfg, env, design, rule, 
     summ = json.load(open(os.path.join(out, summary)))
     accepted, failures = vlib.validate_chunks(ctx, module, cfg, os.path.join(out, tracefile), consts=consts or {},
                                               name=ctx.prop.lower())
-    ctx.traces = accepted
+    ctx.traces = accepted + ((extra_cov or {}).get("dmapkey_hook_traces") or {}).get("accepted", 0)
     for seq_lines, line, msg in failures:
         head = json.loads(seq_lines[0])
         evs = [json.loads(l) for l in seq_lines[1:line]]
@@ -383,7 +383,37 @@ def det_run(ctx, pkg, test, tracefile, summary, module, cfg, env, design, rule, 
     for k in ("notes",):
         if summ.get(k):
             cov[k] = summ[k]
+    cov.update(extra_cov or {})
     return vlib.finish(ctx, cov)
+
+
+def dmapkey_trace(ctx, rounds):
+    """DMapKey.tla bound to the code by its own actions: the arrivals at the trace points of the owner's write and delete
+    paths, recorded on real clusters under concurrent writers, are replayed by DMapKeyTrace.tla (one action per point;
+    LockDiscipline and Mirror in every state; final copies compared white box)."""
+    out = ctx.dir("dk")
+    rc, o = vlib.go_test(ctx, "reg", "TestDMapKeyTrace", env={"VERIF_OUT": out, "VERIF_DK_ROUNDS": rounds}, timeout=1500)
+    if crash_or_fail(ctx, rc, o, "recording the write path's trace points"):
+        return None
+    summ = json.load(open(os.path.join(out, "dk.summary.json")))
+    acc_total = 0
+    import concurrent.futures as cf
+    with cf.ThreadPoolExecutor(max_workers=3) as ex:
+        results = list(ex.map(lambda nb: vlib.validate_histories(ctx, "DMapKeyTrace", "DMapKeyTrace.cfg", os.path.join(out, "dk-nb%d.ndjson" % nb),
+                                                                 consts={"NB": nb}, name="dk%d" % nb, chunk_lines=100), (0, 1, 2)))
+    for nb, (acc, fails) in zip((0, 1, 2), results):
+        acc_total += acc
+        for seq_lines, line, msg in fails:
+            head = json.loads(seq_lines[0])
+            evs = [json.loads(l) for l in seq_lines[1:]]
+            bad = evs[line - 2] if 2 <= line <= len(evs) + 1 else {}
+            vlib.report_failure(ctx, "write path does not follow DMapKey.tla: the events of key %s are rejected at line %d (%s) [%s]"
+                                % (head.get("key"), line, bad.get("p") or bad.get("t"), head.get("cfg")),
+                                {"kind": "hook-trace", "point": bad.get("p") or bad.get("t", "")},
+                                {"reset": head, "events": evs, "rejected_line": line,
+                                 "replay": "trace points recorded from a real cluster; re-validate with DMapKeyTrace.tla (NB=%d)" % nb})
+    return {"sequences": summ["histories"], "accepted": acc_total, "operations": summ["evaluations"], "with_competing_clients": summ["distinct_nontrivial"],
+            "points": summ.get("paths"), "sample": (summ.get("samples") or [None])[0]}
 
 
 def last_op_tags(head, evs, line, msg):
@@ -403,8 +433,13 @@ def c04(ctx):
             "distinct = distinct (key kind, operation, reply, path) sequences; every sequence changes the stored entry"
             + "; entries about as large as a storage table; rounds of 3-5 concurrent mutating operations (and lock hand-overs to a waiter) on one key with the copies compared once all have returned; janitor and compaction timers run in the small-table cluster")
     design = [("DMapKeyMC", "DMapKey_quick.cfg" if quick else "DMapKey_thorough.cfg", {"timeout": 1500})]
+    dk = dmapkey_trace(ctx, 6 if quick else 150)
+    rule += ("; plus DMapKey.tla's own actions replayed on the recorded arrivals at the trace points of the owner's write and delete paths (3-6 clients on 3 keys, "
+             "Put / NX / XX / Delete, delays inside the critical sections, R in 1..3): lock exclusive, order of the steps, refusals as the model computes them, "
+             "copies equal at rest, final copies as the members hold them")
     return det_run(ctx, "reg", "TestC04", "c04.ndjson", "c04.summary.json", "ReplicaTrace", "ReplicaTrace.cfg",
-                   {"VERIF_SEQUENCES": 60 if quick else 4000, "VERIF_C04_ROUNDS": 30 if quick else 500}, design, rule, "backup mirrors primary", tags_of=last_op_tags)
+                   {"VERIF_SEQUENCES": 60 if quick else 4000, "VERIF_C04_ROUNDS": 30 if quick else 500}, design, rule, "backup mirrors primary", tags_of=last_op_tags,
+                   extra_cov={"dmapkey_hook_traces": dk})
 
 
 def c05_tags(head, evs, line, msg):
